@@ -78,6 +78,8 @@ def run(tier, seed, replay=None):
         obligations, discharged, report = C.check_theorems(PROP, "Properties.C12", THEOREMS)
         if discharged != obligations:
             raise C.Failure("property theorem(s) not discharged: %s" % report)
+        if tier == "thorough":
+            report["coqchk"] = "closed" if C.coqchk(PROP) else "?"
     except C.Failure as e:
         failure = e
     drv = C.build_driver()
